@@ -7,7 +7,6 @@ Open Scope Z_scope.
 
 Record tracker := mkT { tm : nat; tmax : Z; tvals : list Z }.
 
-Definition nthz (l : list Z) (i : nat) : Z := nth i l 0.
 
 (* new: last_index = (m << 1) - 2 underflows for m = 0 (panic in debug builds) *)
 Definition t_new (maxv : Z) (m : nat) : outcome tracker :=
